@@ -35,7 +35,7 @@ EXPLANATION = (
     "C12's R12.1/R12.2 (power-state writers, interfaces disabled when leaving ON, enable gated on ON) applied here: a deny rule "
     "blocks only if the matcher matches and the scan stops there, a powered-off device is silent only if its interfaces stay down. "
     "R6.7 Router.check_send_frame_to_session_manager is true exactly for frames addressed to an own interface that are ICMP or "
-    "aimed at an open port (8-row table) - the premise under which RouterICMP may re-enter process_frame."
+    "aimed at an open port (8-row table) - the premise under which RouterICMP may re-enter process_frame. R6.8 the ACL exemption (subject_to_acl and the Frame properties it consults) reads the frame's ip and udp headers only, unless every path to the exemption passes `ip.protocol == 'udp'`."
 )
 TECHNIQUE = "static: CFG must-pass (verdict before effect) per filter function, zone call-graph check, who-may-call inventories, module layering check"
 ASSUMPTIONS = ["no monkey-patching of interface/node classes", "class-hierarchy analysis over-approximates dispatch"]
@@ -555,7 +555,60 @@ def r6_7(ctx: Ctx) -> None:
 
 
 
+def r6_8(ctx: Ctx) -> None:
+    """The only frames a router lets past its ACL unexamined are ARP frames: UDP to the ARP port.  The exemption decision
+    (subject_to_acl and the Frame properties it consults) may therefore read the frame's ip and udp headers only: once it looks at the
+    tcp header (or the payload) a TCP segment addressed to the ARP port number walks through every deny rule."""
+    ix = ctx.ix
+    ctx.rule("R6.8", "the ACL exemption is decided from the frame's ip and udp headers only")
+    frame = ix.cls("Frame")
+    headers = set(frame.fields)
+    impls = [f for f in ix.functions if f.name == "subject_to_acl" and f.cls is not None and not isinstance(f.node, ast.Lambda)]
+    ctx.floor("R6.8", "subject_to_acl implementations", len(impls), 1)
+
+    def reads(fnode: ast.AST, recv: str, depth: int = 2) -> Set[str]:
+        out: Set[str] = set()
+        for x in ast.walk(fnode):
+            if isinstance(x, ast.Attribute) and isinstance(x.value, ast.Name) and x.value.id == recv:
+                if x.attr in headers:
+                    out.add(x.attr)
+                else:
+                    m = ix.find_method(frame, x.attr)
+                    if m is not None and depth > 0 and not isinstance(m.node, ast.Lambda):
+                        out |= reads(m.node, "self", depth - 1)
+        return out
+
+    for f in impls:
+        params = [a.arg for a in f.node.args.args if a.arg != "self"]
+        if len(params) != 1:
+            raise AnalysisError(f"R6.8: {f.short} takes {params}, expected exactly the frame")
+        got = reads(f.node, params[0])
+        extra = sorted(got - {"ip", "udp"})
+        # behind a test that the frame *is* UDP the other headers are absent: consulting them cannot exempt anything else
+        g = CFG(f.node)
+        exempt = [x for x in g.nodes if x.kind == "stmt" and isinstance(x.ast, ast.Return) and isinstance(x.ast.value, ast.Constant)
+                  and x.ast.value.value is False]
+        if extra and not exempt:
+            raise AnalysisError(f"R6.8: {f.short} has no `return False` (exemption) statement")
+
+        def is_udp_edge(e) -> bool:
+            if not (e.label and e.label[0] == "cond" and e.label[2]):
+                return False
+            c = e.label[1]
+            return isinstance(c, ast.Compare) and len(c.ops) == 1 and isinstance(c.ops[0], ast.Eq) and unparse(c.left).endswith(".ip.protocol") \
+                and isinstance(c.comparators[0], ast.Constant) and c.comparators[0].value == "udp"
+
+        if extra and g.path_avoiding(exempt, is_udp_edge) is None:
+            ctx.ok("R6.8", ctx.key(f, "exemption reads only ip/udp headers"), f.loc(),
+                   f"fields consulted {sorted(got)}, but every path to the exemption passes `ip.protocol == 'udp'`")
+            continue
+        ctx.record("R6.8", ctx.key(f, "exemption reads only ip/udp headers"), f.loc(), not extra and "udp" in got,
+                   f"frame fields consulted (through Frame properties too): {sorted(got)}" + ("" if not extra and "udp" in got else
+                   f" - {extra or 'no udp header'}: a frame that is not UDP-to-the-ARP-port can be exempted from (or ARP subjected to) the ACL"))
+
+
 def check(ctx: Ctx) -> None:
+    r6_8(ctx)
     r6_1(ctx)
     r6_4_helper_table(ctx)
     r6_7(ctx)
